@@ -52,3 +52,18 @@ type Outer struct {
 func (o *Outer) Len() int   { o.g.RLock(); defer o.g.RUnlock(); return len(o.in.vals) }
 func (o *Outer) Add(x int)  { o.g.Lock(); defer o.g.Unlock(); o.in.vals = append(o.in.vals, x) }
 func (o *Outer) Peek() int  { return o.in.vals[0] }
+
+// functions that are handed the receiver are analysed in place (deep mode)
+func total(scale int, o *Outer) int {
+	o.g.RLock()
+	defer o.g.RUnlock()
+	t := 0
+	for _, v := range o.in.vals {
+		t += v * scale
+	}
+	return t
+}
+func Total(o *Outer) int       { return total(1, o) }
+func (o *Outer) Sum() int      { return total(2, o) }
+func pair(a, b *Outer) int     { return 0 }
+func (o *Outer) SumTwice() int { return pair(o, o) }
